@@ -31,7 +31,8 @@ from ..paths import Enumerator
 from .. import poly
 from ..terms import Terms, PathEnv, specialise
 
-VERIFIED_OPS = {}     # class name -> True when R2 proved it
+VERIFIED_OPS = {}     # class name -> True when R2 proved it, False when R2 found a violation, absent when undecided
+KNOWN_OPS = ("PmMutator", "UniformMutator", "NonUniformMutation", "SimulatedBinaryCrossover")
 
 
 def body_fn(stmts, args, lineno=0):
@@ -154,7 +155,8 @@ def r2_mutators(ctx, repo, clip_params):
             npaths += 1
             defs = {}
             apps = []
-            for e in p.events:
+            pe = PathEnv(fn, p.events)
+            for k_, e in enumerate(p.events):
                 if e.kind == "stmt":
                     s = e.node
                     if isinstance(s, ast.Assign) and len(s.targets) == 1 and isinstance(s.targets[0], ast.Name):
@@ -162,7 +164,8 @@ def r2_mutators(ctx, repo, clip_params):
                     for c in calls_in(s):
                         mc = method_call(c)
                         if mc and access_path(mc[0]) == out and mc[1] == "append":
-                            apps.append(c.args[0])
+                            # the appended value with the temporaries of this path looked through (calls stay calls)
+                            apps.append(pe.expand_at(c.args[0], k_))
             if len(apps) != 1:
                 bad = bad or (lp, "%d elements appended for one parameter on the path [%s] (the child must have the same dimension)" % (len(apps), p.describe(3)))
                 continue
@@ -203,7 +206,8 @@ def r2_sbx(ctx, repo, clip_params):
         raise AnalysisError("SimulatedBinaryCrossover.cross not found")
     selfn, p1, p2 = func_params(fn)[:3]
     rets = [s for s in stmts_of(fn) if isinstance(s, ast.Return)]
-    if len(rets) != 1 or not isinstance(rets[0].value, ast.Tuple):
+    if not rets or not all(isinstance(r_.value, ast.Tuple) and [access_path(e) for e in r_.value.elts] == [access_path(e) for e in rets[0].value.elts] for r_ in rets) \
+            or None in [access_path(e) for e in rets[0].value.elts]:
         ctx.inconclusive("R2", C, where(mod, fn), "return of two children not recognised")
         return
     kids = [access_path(e) for e in rets[0].value.elts]
@@ -447,31 +451,10 @@ def r3_generators(ctx, repo):
     ctx.check3(True if ok else (False if detail else None), "R3", C, where(doe, fn), "unit samples are mapped by lo + w*(hi-lo) with the bounds of the same column", detail or "",
                "scaling expression not found", key="unit-affine-doe")
 
-    # UniformGenerator grid
-    ug = repo.cls("UniformGenerator", "operators")
-    fn = ug.methods.get("generate")
-    C = "UniformGenerator.generate"
-    defs = single_defs(fn)
-    selfn = func_params(fn)[0]
-    lv = None
-    inner = [s for s in stmts_of(fn) if isinstance(s, ast.For) and range_bounds(s.iter)]
-    ok = False
-    detail = "level loop not found"
-    if inner:
-        il = inner[0]
-        rb = range_bounds(il.iter)
-        i = il.target.id
-        app = [c for c in calls_in(il) if method_call(c) and method_call(c)[1] == "append"]
-        if app and (rb[0] is None or text(rb[0]) == "0") and text(rb[1]) == selfn + ".number":
-            e = canon(app[0].args[0], defs)
-            pv = [s for s in fn.body if isinstance(s, ast.For)][0].target.id
-            want = poly.parse("{p}['bounds'][0] + {i} * ({p}['bounds'][1] - {p}['bounds'][0]) / ({s}.number - 1)".format(p=pv, i=i, s=selfn))
-            eq = poly.equal(e, want)
-            ok = bool(eq)
-            detail = "level i = lo + i*(hi-lo)/(k-1), i in [0, k): first level lo, last level hi" if ok else "grid level %s is not lo + i*(hi-lo)/(k-1) over i in [0,k)" % text(e)
-        else:
-            detail = "levels are generated over %s, not range(k)" % text(il.iter)
-    ctx.check(ok, "R3", C, where(ug.module, fn), detail, key="grid-levels")
+    # UniformGenerator grid: decided by the grid rule of C12 (levels lo + i*(hi-lo)/(k-1), i in [0,k), full product)
+    from . import c12
+    from .c18 import SubCtx
+    c12.r2_grid(SubCtx(ctx, "R3", prefix="grid: "), repo)
 
     # selection-only builders: every value placed in a design comes from factor_lists[index][...]
     fn = doe.functions.get("construct_df")
@@ -612,8 +595,12 @@ def r5_closure(ctx, repo):
                         if bases & {"Mutator", "Crossover"}:
                             wired.append((nm, k, c))
         unverified = [(nm, k, c) for nm, k, c in wired if not VERIFIED_OPS.get(nm)]
-        if unverified:
+        disproved = [(nm, k, c) for nm, k, c in unverified if VERIFIED_OPS.get(nm) is False or nm not in KNOWN_OPS]
+        if unverified and not disproved:
             nm, k, c = unverified[0]
+            ctx.inconclusive("R5", C, where(k.module, c), "the variation operator %s wired into %s could not be decided by R2" % (nm, cname), key="wiring")
+        elif unverified:
+            nm, k, c = disproved[0]
             ctx.violated("R5", C, where(k.module, c), "the variation operator %s wired into %s is not one of the operators proved to stay in the box %s" % (nm, cname, sorted(VERIFIED_OPS)), key="wiring")
         else:
             ctx.holds("R5", C, where(mod, cls.node), "variation operators wired in: %s (all proved by R2)" % sorted({w[0] for w in wired}), key="wiring")
